@@ -301,6 +301,80 @@ def run_atom_c03(sx, cfg, env, v, indom):
     sx.require(core.frozen(pdu2) == msg, "decode-then-encode-reproduces-the-pdu")
 
 
+WRONG = {
+    "int": [1.0, 1.5, "1", "x", None, True, b"\x01", bytearray(b"\x01"), [1], {"a": 1}, float("nan")],
+    "bytes": [5, "ab", None, 1.5, [1, 2], True],
+    "str": [5, b"ab", None, 1.5, ["a"], True],
+    "float": ["1.0", None, b"\x00", [1.0], 1, True],
+}
+
+
+def run_wrongtype(sx, cfg, env):
+    """C04, concrete operands: wrongly typed values, a missing required and an unknown
+    parameter.  Outcome: OdxError, or a PDU that decodes back to the requested value."""
+    from odxtools.exceptions import OdxError
+    rq = env["rq"]
+    kind = cfg["kind"]
+    # a symbolic witness keeps the obligation inside the engine; the operands are concrete
+    sel = sx.int("sel", 0, 0)
+    sx.assume(sel == 0)
+    cases = [("val", v) for v in WRONG[kind]] + [("missing", None), ("unknown", None)]
+    for i, (what, v) in enumerate(cases):
+        try:
+            if what == "val":
+                pdu = rq.encode(val=v)
+            elif what == "missing":
+                pdu = rq.encode()
+            else:
+                good = cfg["good"] if cfg["good"] is not None else b"\x01\x02"[:1 if cfg.get("dct") else 2]
+                pdu = rq.encode(val=good, no_such_parameter=1)
+        except OdxError:
+            sx.cover("rejected")
+            continue
+        except Exception as e:  # noqa: BLE001
+            sx.observe(f"case{i}", f"{what}:{v!r}:{type(e).__name__}")
+            sx.require(False, "rejection-uses-the-library-error-type")
+            continue
+        sx.cover("accepted")
+        if what != "val":
+            sx.require(False, "missing-or-unknown-parameter-is-rejected")
+            continue
+        try:
+            dec = rq.decode(bytes(pdu))
+            # value-preserving acceptance is fine (True -> 1, 1 -> 1.0): compare by value
+            if isinstance(v, (bytes, bytearray)):
+                same = bytes(dec["val"]) == bytes(v)
+            else:
+                same = dec["val"] == v
+        except Exception:  # noqa: BLE001
+            same = False
+        sx.observe(f"case{i}", f"{v!r}->{pdu.hex()}")
+        sx.require(bool(same), "accepted-wrongly-typed-value-comes-back-unchanged")
+
+
+WRONGTYPE_HARNESS = {"build": build_atom, "run": run_wrongtype, "width": 80,
+                     "must_cover": ["rejected"]}
+
+
+def wrongtype_configs():
+    out = []
+    for dtp, kind, good, extra in (("A_UINT32", "int", 1, {"bl": 8}), ("A_INT32", "int", 1, {"bl": 16}),
+                                   ("A_BYTEFIELD", "bytes", b"\x01\x02", {"bl": 16}),
+                                   ("A_UTF8STRING", "str", "ab", {"bl": 16}),
+                                   ("A_FLOAT64", "float", 1.0, {"bl": 64}),
+                                   ("A_BYTEFIELD", "bytes", b"\x01", {"dct": "minmax", "min": 0,
+                                                                       "max": 4, "term": "ZERO"}),
+                                   ("A_UTF8STRING", "str", "a", {"dct": "leading", "bl": 8})):
+        a = dict(dt=dtp, enc=None, bitpos=0, bytepos=None, hl=True, **extra)
+        c = dict(a)
+        c.update(harness="wrongtype", id="wrongtype/" + atom_id(a), kind=kind, good=good, prop="C04",
+                 build=dict(a), tail=True)
+        if isinstance(good, bytes):
+            c["good"] = None  # not JSON-able; the harness falls back below
+        out.append(c)
+    return out
+
+
 def _require_same(sx, a, got, want, label):
     dtp = a["dt"]
     if dtp == "A_FLOAT32":
@@ -345,7 +419,7 @@ BL_ALL = [1, 2, 7, 8, 9, 12, 15, 16, 17, 24, 31, 32, 33, 63, 64]
 def atoms(tier, seed):
     rnd = random.Random(seed)
     out = []
-    bls = BL_ALL
+    bls = BL_ALL if tier == "quick" else list(range(1, 65))
     # plain integers: every bit length x bit position x byte order x byte position
     for dtp, encs in (("A_UINT32", [None]), ("A_INT32", [None, "2C", "1C", "SM"])):
         for enc in encs:
@@ -358,7 +432,8 @@ def atoms(tier, seed):
                             out.append(dict(dt=dtp, enc=enc, bl=bl, bitpos=bitpos, hl=hl,
                                             bytepos=bytepos))
     for enc, unit in (("BCD-P", 4), ("BCD-UP", 8)):
-        for bl in ([4, 8, 12, 16] if tier == "quick" else [4, 8, 12, 16, 20, 24]):
+        for bl in ([4, 8, 12, 16] if tier == "quick" else
+                   ([4, 8, 12, 16, 20] if enc == "BCD-P" else [8, 16, 24, 32])):
             if bl % unit:
                 continue
             for bitpos in (0, 4):
